@@ -23,6 +23,9 @@ const (
 	defaultBindingRefreshInterval = 5 * time.Minute
 	defaultBindingCheckInterval   = 30 * time.Second
 	maxRetryAttempts              = 3
+	// Peer addresses per CreatePermission request of the periodic refresh: with IPv6 peers
+	// (24 bytes each) such a request stays near 1100 bytes.
+	maxPermissionsPerRequest = 40
 	// Largest payload WriteTo accepts: what fits a Send indication (16-bit message length) next
 	// to its other attributes (DATA header and padding, XOR-PEER-ADDRESS of an IPv6 peer,
 	// FINGERPRINT). ChannelData could carry 40 bytes more; one limit for both.
